@@ -1014,7 +1014,9 @@ func (h *vrfCli) settle() bool {
 					rerr = h.CC.readerErr
 				default:
 				}
-				h.R.Note("client closed connection in %s/%d (its GOAWAY code %d) reader error: %v\n%s", h.C.Stream, h.C.Index, code, rerr, h.SC.Trace())
+				if h.R.ID == "C10" { // C10's peer never exceeds a window: a connection the client gives up is worth a note
+					h.R.Note("client closed connection in %s/%d (its GOAWAY code %d) reader error: %v\n%s", h.C.Stream, h.C.Index, code, rerr, h.SC.Trace())
+				}
 				if vrfDebug {
 					fmt.Printf("VRFDEBUG client closed connection:\n%s\n", h.SC.Trace())
 				}
@@ -1070,9 +1072,6 @@ func (h *vrfCli) sample() vrfCliSample {
 	for cs := range h.known {
 		if !appClosed[cs] && !failed[cs.ID] {
 			v.held += int64(cs.bufPipe.Len())
-		}
-		if vrfDebug {
-			fmt.Printf("VRFDEBUG cs id=%d appClosed=%v len=%d bnil=%v err=%v breakErr=%v readErr=%v bytesRemain=%d avail=%d unsent=%d\n", cs.ID, appClosed[cs], cs.bufPipe.Len(), cs.bufPipe.b == nil, cs.bufPipe.err, cs.bufPipe.breakErr, cs.readErr, cs.bytesRemain, cc.inflow.avail, cc.inflow.unsent)
 		}
 	}
 	return v
